@@ -9,7 +9,8 @@
 // Mini-VM: the call payload is JSON {"ops":[[op,args...],...],"fd":bool};
 // a deploy payload is {"code":"...","ctor":[ops]} and is stored as the code.
 // ops: ["set",k,v] ["del",k] ["event",name] ["ret",v] ["gas",n]
-//      ["fail"] (runtime error) ["sysfail"] (system error)
+//
+//	["fail"] (runtime error) ["sysfail"] (system error)
 package contract
 
 import (
@@ -61,7 +62,7 @@ func MaxCallDepth(version int32) int32 {
 	return maxCallDepthOld
 }
 
-func InitContext(numCtx int, logInternalOps bool)                    {}
+func InitContext(numCtx int, logInternalOps bool)                  {}
 func StartLStateFactory(numLStates, numClosers, numCloseLimit int) {}
 func LoadDatabase(dataDir string) error                            { return nil }
 func CloseDatabase()                                               {}
@@ -98,6 +99,9 @@ type stubProg struct {
 	Ctor [][]interface{} `json:"ctor,omitempty"`
 	Ops  [][]interface{} `json:"ops,omitempty"`
 	Fd   bool            `json:"fd,omitempty"`
+	// FdOps is the body of the contract's check_delegation function (the real VM runs that
+	// function, not the called one, to decide whether the contract pays the fee)
+	FdOps [][]interface{} `json:"fdops,omitempty"`
 }
 
 type stubSysErr struct{ error }
@@ -234,7 +238,7 @@ func CheckFeeDelegation(contractAddress []byte, bs *state.BlockState, bi *types.
 	}
 	// like the real check this runs contract code on the caller's state
 	ctx := &vmContext{bs: bs, blockInfo: bi, isQuery: true}
-	if _, err := ctx.run(contractState, contractAddress, p.Ops); err != nil {
+	if _, err := ctx.run(contractState, contractAddress, p.FdOps); err != nil {
 		return err
 	}
 	return nil
